@@ -41,8 +41,38 @@ def _single_return(func: ast.FunctionDef, skip_guarded_by: str = "isinstance") -
     rets = [r for r in walk_local(func) if isinstance(r, ast.Return)
             and not any(skip_guarded_by in txt(t) for t, _ in guards(r, stop=func))]
     if len(rets) != 1:
-        raise AnalysisError(f"{func.name}: expected one unguarded return, found {len(rets)}")
+        folded = _fold_returns([st for st in func.body if not any(skip_guarded_by in txt(t) for t in
+                                                                  ([st.test] if isinstance(st, ast.If) else []))])
+        if folded is None:
+            raise AnalysisError(f"{func.name}: expected one unguarded return, found {len(rets)}")
+        return ast.copy_location(ast.Return(value=folded), rets[0])
     return rets[0]
+
+
+def _fold_returns(stmts, env=None):
+    """ the value returned by a block of plain assignments and if/else arms that all end in `return`, as one
+        (conditional) expression with the locals substituted; None when the block has another shape """
+    from ..kernel import subst
+    env = dict(env or {})
+    for index, st in enumerate(stmts):
+        if isinstance(st, ast.Return):
+            return subst(st.value, env) if st.value is not None else None
+        if isinstance(st, ast.Expr) and isinstance(st.value, ast.Constant):
+            continue
+        if isinstance(st, ast.Assert):
+            continue
+        if isinstance(st, ast.Assign) and len(st.targets) == 1 and isinstance(st.targets[0], ast.Name):
+            env[st.targets[0].id] = subst(st.value, env)
+            continue
+        if isinstance(st, ast.If):
+            rest = list(stmts[index + 1:])
+            yes = _fold_returns(list(st.body) + rest, env)
+            no = _fold_returns(list(st.orelse) + rest, env)
+            if yes is None or no is None:
+                return None
+            return ast.IfExp(test=subst(st.test, env), body=yes, orelse=no)
+        return None
+    return None
 
 
 def r13_2(ctx: Ctx) -> None:
@@ -73,28 +103,39 @@ def r13_2(ctx: Ctx) -> None:
     if len(ctor) != 1:
         raise AnalysisError("HMMResult.merge: constructor call not found")
     args = ctor[0].args
-    # start / end as expressions: substitute single-assignment locals, or build an if-expression from the two arms
+    # start / end as expressions: the value each local holds when the constructor runs, as one conditional expression
+    # over the if/else arms that assign it
+    def env_after(stmts, env):
+        from ..kernel import subst
+        env = dict(env)
+        for st in stmts:
+            if isinstance(st, ast.Assign) and len(st.targets) == 1 and isinstance(st.targets[0], ast.Name):
+                env[st.targets[0].id] = subst(st.value, env)
+            elif isinstance(st, ast.Assign) and len(st.targets) == 1 and isinstance(st.targets[0], ast.Tuple) \
+                    and isinstance(st.value, ast.Tuple) and len(st.value.elts) == len(st.targets[0].elts):
+                values = [subst(v, env) for v in st.value.elts]
+                for tgt, val in zip(st.targets[0].elts, values):
+                    if isinstance(tgt, ast.Name):
+                        env[tgt.id] = val
+            elif isinstance(st, ast.If):
+                yes, no = env_after(st.body, env), env_after(st.orelse, env)
+                test = subst(st.test, env)
+                for key in set(yes) | set(no):
+                    a, b = yes.get(key), no.get(key)
+                    if a is None or b is None:
+                        continue
+                    env[key] = a if txt(a) == txt(b) else ast.IfExp(test=test, body=a, orelse=b)
+            elif isinstance(st, (ast.Return, ast.Assert, ast.Expr, ast.Pass)):
+                continue
+            else:
+                raise OutsideFragment(f"statement outside the fragment in merge: {txt(st)[:60]}")
+        return env
+
     def resolve(name: str) -> ast.AST:
-        vals = bound_from(func, name)
-        if len(vals) == 1:
-            return vals[0]
-        ifs = [n for n in walk_local(func) if isinstance(n, ast.If)]
-        if len(vals) == 2 and len(ifs) == 1:
-            def arm_val(arm):
-                for stmt in arm:
-                    if isinstance(stmt, ast.Assign):
-                        tgt, val = stmt.targets[0], stmt.value
-                        if isinstance(tgt, ast.Tuple) and isinstance(val, ast.Tuple):
-                            for t, v in zip(tgt.elts, val.elts):
-                                if txt(t) == name:
-                                    return v
-                        elif txt(tgt) == name:
-                            return val
-                return None
-            a, b = arm_val(ifs[0].body), arm_val(ifs[0].orelse)
-            if a is not None and b is not None:
-                return ast.IfExp(test=ifs[0].test, body=a, orelse=b)
-        raise OutsideFragment(f"cannot resolve `{name}` in merge")
+        env = env_after(func.body, {})
+        if name not in env:
+            raise OutsideFragment(f"cannot resolve `{name}` in merge")
+        return env[name]
     try:
         start = rename(resolve(txt(args[1])) if isinstance(args[1], ast.Name) else args[1], mapping)
         end = rename(resolve(txt(args[2])) if isinstance(args[2], ast.Name) else args[2], mapping)
@@ -144,7 +185,9 @@ def _greedy_filter(ctx: Ctx) -> None:
     if len(loops) != 1 or len(rets) != 1:
         raise AnalysisError(f"{qual}: the loop over the hits / the returned list was not found")
     loop, kept_list = loops[0], rets[0].value.id
-    cur = loop.target.id
+    from ..loopview import view as _loop_view
+    lview = _loop_view(func, loop.iter, loop.target, loop.body)
+    cur = lview.elem if lview is not None and lview.elem else loop.target.id
     # the hit each new one is compared with: the local (other than the loop variable) whose query_end the loop reads
     prev_names = {n.value.id for n in walk_local(loop) if isinstance(n, ast.Attribute) and n.attr == "query_end"
                   and isinstance(n.value, ast.Name) and n.value.id != cur}
